@@ -164,7 +164,18 @@ func (g *genCtx) genExpr(typ string, depth int, label string) *Expr {
 					if a := g.genIntNoPlugin(depth-1, label+".a"); a != nil {
 						op := rapid.SampledFrom([]string{"/", "%"}).Draw(g.t, label+".divop")
 						g.label("fault:div")
-						return &Expr{K: "bin", Op: op, Args: []*Expr{a, {K: "lit", Lit: IntLit(rapid.Int64Range(0, 2).Draw(g.t, label+".div"))}}}
+						div := &Expr{K: "lit", Lit: IntLit(rapid.Int64Range(0, 2).Draw(g.t, label+".div"))}
+						if rapid.IntRange(0, 2).Draw(g.t, label+".divin?") == 0 {
+							// a divisor taken from the workflow input: whether the evaluation fails depends on the run
+							for _, s := range g.srcs {
+								if s.typ == "int" && s.expr.K == "in" && !s.optional && len(s.expr.Path) == 0 {
+									div = s.expr
+									g.label("fault:div-by-input")
+									break
+								}
+							}
+						}
+						return &Expr{K: "bin", Op: op, Args: []*Expr{a, div}}
 					}
 				case 1:
 					if a := g.genExpr("string", depth-1, label+".a"); a != nil {
@@ -623,6 +634,14 @@ func (g *genCtx) genTag(label string, inStep bool) *Val {
 	case "waitopt", "softopt":
 		if g.p.Faults && rapid.IntRange(0, 9).Draw(t, label+".optexpr?") < 4 {
 			// a computed expression (possibly one whose evaluation fails) under the optional tag
+			if rapid.IntRange(0, 2).Draw(t, label+".optdiv?") == 0 {
+				// optional tags are resolved on a code path of their own: a division whose divisor may be zero
+				if a := g.genIntNoPlugin(1, label+".optdiv.a"); a != nil {
+					op := rapid.SampledFrom([]string{"/", "%"}).Draw(t, label+".optdiv.op")
+					g.label("tag:" + kind + "-over-division")
+					return &Val{K: kind, Expr: &Expr{K: "bin", Op: op, Args: []*Expr{a, {K: "lit", Lit: IntLit(rapid.Int64Range(0, 1).Draw(t, label+".optdiv.d"))}}}}
+				}
+			}
 			typ := rapid.SampledFrom([]string{"int", "int", "string", "bool"}).Draw(t, label+".opttyp")
 			if e := g.genExpr(typ, 2, label+".optexpr"); e != nil && e.K != "in" && e.K != "lit" {
 				g.label("tag:" + kind + "-over-computed-expression")
